@@ -4,7 +4,7 @@ From VGI Require Import Corr Regex M_Wire M_AccessLog L_AccessLog.
 Import ListNotations.
 Open Scope N_scope.
 
-Definition digc : cls := CRange 48 57.
+Definition digc : Regex.cls := CRange 48 57.
 Definition is_dig (c : N) : Prop := cls_mem E0 digc c = true.
 
 (* ^[0-9]{4}-[0-9]{2}-[0-9]{2}T[0-9]{2}:[0-9]{2}:[0-9]{2}\.[0-9]{3}Z$ as translated from the schema *)
